@@ -31,6 +31,10 @@ EXPLANATION = ("Theorems: the streaming tokenizer's string reader equals the ref
 HOSTILE = ["del\u007f raw", "c1 \u0085 nel \u009f", "tab\there", "quote\"inside", "back\\slash", "slash/", "bell\u0007", "nul\u0001", "\u001f unit", "é ü ñ",
            "日本語", "😀 emoji 🎉", "  line sep  ", "﻿ bom", "mix \t\"\\/\b\f\r é😀", " nbsp", "à combining"]
 
+# one character of every supplementary plane, and the edges of the surrogate gap
+HOSTILE += ["planes " + "".join(chr(p * 0x10000 + 0x0BB7) for p in range(1, 17)),
+            "edges \ud7ff\ue000\uffff" + chr(0x10000) + chr(0x1FFFF) + chr(0x20000) + chr(0x10FFFF) + chr(0xFFFFF) + chr(0x100000)]
+
 
 def inject(doc, rng):
     """Replace some text nodes ("^...") by hostile text."""
